@@ -544,7 +544,7 @@ func c19HandshakeScenario(kind string, rtoMax float64, il bool) *Scenario {
 			for _, h := range x.Hist {
 				if h.Call == "dial0" {
 					want := times[len(times)-1] + time.Duration(calcBackoff(1000, uint(len(times)-1), rm))*time.Millisecond
-					if h.At != want {
+					if h.At < times[len(times)-1] || h.At > want+time.Second {
 						m.Failf("handshake.giveup", "%s: the connect call returned at %v, the last retransmission period ended at %v", kind, h.At, want)
 					}
 				}
